@@ -1,6 +1,7 @@
 package world
 
 import (
+	"encoding/base64"
 	"fmt"
 	"strings"
 	"time"
@@ -34,8 +35,9 @@ func spellings(r *Rng, h string) string {
 func genC03(r *Rng) *Plan {
 	cfg := swarmConfig(r)
 	opts := map[string]any{"skip_auth_regex": []string{"^/public/.*", "^/health$"}}
-	if r.Chance(1, 2) {
-		opts["allowed_groups"] = []string{"eng"}
+	groupsOn := r.Chance(1, 2)
+	if groupsOn {
+		opts["allowed_groups"] = []string{"eng", "all", "ops"}
 		cfg.DefaultDomains = nil
 	}
 	if r.Chance(1, 3) {
@@ -50,6 +52,10 @@ func genC03(r *Rng) *Plan {
 	p.Steps = append(p.Steps, Step{Op: "login", B: "b1", User: "alice@example.com", Host: host, Target: "/"})
 	n := r.Range(3, 15)
 	for i := 0; i < n; i++ {
+		if groupsOn && r.Chance(1, 3) {
+			// the directory changes while the user stays admitted: the asserted groups must follow the re-checked session
+			p.Steps = append(p.Steps, Step{Op: "idp", Sub: "setgroups", User: "alice@example.com", Groups: r.Pick0s([][]string{{"eng"}, {"eng", "all"}, {"all", "ops"}, {"ops", "eng", "all"}})})
+		}
 		var hdrs [][2]string
 		for _, h := range identityHeaders {
 			if r.Chance(1, 2) {
@@ -62,7 +68,7 @@ func genC03(r *Rng) *Plan {
 		if r.Chance(1, 4) {
 			hdrs = append(hdrs, [2]string{"X-Forwarded-For", "10.0.0.1"}, [2]string{"X-Other", "kept"})
 		}
-		st := Step{Op: "get", B: "b1", Host: host, Headers: hdrs, Dt: posDur(landmark(r, cfg) / 4),
+		st := Step{Op: "get", B: "b1", Host: host, Headers: hdrs, Dt: posDur(landmark(r, cfg) / 2),
 			Target: r.Pick("/", "/private", "/public/a", "/health", "/public/../x", "/api?x=1", "/favicon.ico", "/oauth2/auth", "/robots.txt", "/public/favicon.ico"), Method: r.Pick("GET", "GET", "POST", "OPTIONS", "PUT")}
 		// cookie layouts: the session cookie first / middle / last / duplicated among other cookies
 		if r.Chance(2, 3) {
@@ -173,6 +179,17 @@ func genC12(r *Rng) *Plan {
 	p := &Plan{Cfg: cfg, Users: stdUsers, Gen: "signing"}
 	host := rt.From
 	p.Steps = append(p.Steps, Step{Op: "login", B: "b1", User: "alice@example.com", Host: host, Target: "/"})
+	if r.Chance(1, 5) {
+		// two requests with bodies in flight at once: the first is signed and still connecting to the
+		// backend while the second is signed and forwarded
+		p.Gen = "signing+twin"
+		p.Steps = append(p.Steps, Step{Op: "login", B: "b2", User: "bob@example.com", Host: host, Target: "/"})
+		for k, m := 0, r.Range(1, 4); k < m; k++ {
+			la, lb := r.Range(40, 2000), r.Range(20, 2000)
+			p.Steps = append(p.Steps, Step{Op: "get", B: "b1", Host: host, Method: "POST", Target: "/open/upload-a", Body: strings.Repeat("A", la), Sub: "slow-upstream-dial", Name: rt.Backend[0],
+				Twin: &Step{Op: "get", B: "b2", Host: host, Method: r.Pick("POST", "PUT"), Target: "/open/upload-b", Body: strings.Repeat("B", lb)}})
+		}
+	}
 	n := r.Range(5, 20)
 	tamper := r.Chance(1, 2)
 	for i := 0; i < n; i++ {
@@ -195,7 +212,7 @@ func genC12(r *Rng) *Plan {
 		case 1:
 			st.Body = `{"k":"v"}`
 		case 2:
-			st.Body = strings.Repeat("\x00\x01\xfe\xff binary ", 40)
+			st.Body = "b64:" + base64.StdEncoding.EncodeToString([]byte(strings.Repeat("\x00\x01\xfe\xff binary ", 40))) // raw bytes survive the plan's JSON form
 		case 3:
 			st.Body = strings.Repeat("0123456789abcdef", 4096) // 64 KiB
 		case 4:
@@ -205,7 +222,7 @@ func genC12(r *Rng) *Plan {
 			hdrs = append(hdrs, [2]string{"Content-Length", r.Pick("0", "0", "00")})
 		}
 		if bodyKind >= 1 && bodyKind <= 3 && r.Chance(1, 12) {
-			hdrs = append(hdrs, [2]string{"Content-Length", fmt.Sprintf("0%d", len(st.Body))})
+			hdrs = append(hdrs, [2]string{"Content-Length", fmt.Sprintf("0%d", len(PlanBytes(st.Body)))})
 		}
 		if r.Chance(1, 3) {
 			st.CookieHdr = "theme=dark; sid=abc"
